@@ -426,6 +426,25 @@ end
 def countFlags (f : Bool × Bool × Bool) : Nat :=
   (if f.1 then 1 else 0) + (if f.2.1 then 1 else 0) + (if f.2.2 then 1 else 0)
 
+/-- `k == e` as CPython's set evaluates it for an entry `k` already in the set and a new element `e`
+    with the same hash (KGSym.__eq__ accepts only a KGSym; KGChar inherits str.__eq__, so a KGChar
+    already in the set swallows a KGSym or str with the same text, but not the other way round) -/
+def pyEqKey (k e : Node) : Bool :=
+  match k, e with
+  | .sym a, .sym b => a == b
+  | .str a, .str b => a == b
+  | .str a, .chr c => a == [c]
+  | .chr c, .str b => [c] == b
+  | .chr c, .chr d => c == d
+  | .chr c, .sym b => [c] == b
+  | .none, .none => true
+  | _, _ => false
+
+/-- the elements `set(args)` keeps, in insertion order -/
+def keptArgs : List Node → List Node → List Node
+  | [], kept => kept.reverse
+  | e :: es, kept => if kept.any (fun k => pyEqKey k e) then keptArgs es kept else keptArgs es (e :: kept)
+
 /-- `get_fn_arity(f)`: for a call of a non-reserved symbol the number of distinct
     reserved symbols / holes among its arguments (`set(f.args)` raises TypeError for missing
     or unhashable arguments), otherwise the number of distinct x, y, z mentioned -/
@@ -435,7 +454,7 @@ def fnArity (f : Node) : Except Err Nat :=
     if !reservedNames.contains n then
       if !hasArgs then .error .typeError
       else if args.any Node.unhashable then .error .typeError
-      else .ok (countFlags (usedArgsL (args.filter Node.isReserved)) + (if hasNone args then 1 else 0))
+      else .ok (countFlags (usedArgsL ((keptArgs args []).filter Node.isReserved)) + (if hasNone args then 1 else 0))
     else .ok (countFlags (usedArgs f))
   | _ => .ok (countFlags (usedArgs f))
 
